@@ -78,6 +78,8 @@ func (e *Env) Environ() []string {
 		"GIT_AUTHOR_NAME=Verif User", "GIT_AUTHOR_EMAIL=verif@example.com",
 		"GIT_COMMITTER_NAME=Verif User", "GIT_COMMITTER_EMAIL=verif@example.com",
 		"GIT_LFS_TEST_DIR=",
+		// never discover a repository above the scenario's root (the harness's own checkout lies above it)
+		"GIT_CEILING_DIRECTORIES=" + e.Root + ":" + filepath.Dir(e.Root) + ":" + filepath.Dir(filepath.Dir(e.Root)),
 		"TMPDIR=" + filepath.Join(e.Root, "home"),
 	}
 	return append(env, e.Extra...)
